@@ -3,6 +3,7 @@ package main
 import (
 	"bufio"
 	"encoding/hex"
+	"encoding/json"
 	"fmt"
 	"os"
 	"os/exec"
@@ -400,6 +401,37 @@ func runC20(seed int64, n int, dir string, tier string) *Report {
 				check(fmt.Sprintf("process killed at the entry of %s", kp.line), kd, map[string]any{"killed_before": kp.line})
 				_ = os.RemoveAll(kd)
 				rep.Count("real_kills")
+			}
+			// (D) the same calls made to fail instead (no space left / I/O error): the store reports an error, or
+			// completes, and what a later retrieve finds is the previous or the new document or an error; the
+			// process neither panics nor exits; the other entry is untouched
+			for k, kp := range killPoints(setup, base, docfile, noclobber) {
+				if kp.syscall == "close" && k%2 == 1 {
+					continue
+				}
+				for _, errno := range []string{"ENOSPC", "EIO"} {
+					fd := filepath.Join(base, fmt.Sprintf("fail%d%s", k, errno))
+					_ = os.Mkdir(fd, 0o755)
+					setup(fd)
+					cmd := exec.Command("strace", "-f", "-qq", "-o", "/dev/null", "-e", "trace="+kp.syscall,
+						"-e", fmt.Sprintf("inject=%s:error=%s:when=%d", kp.syscall, errno, kp.nth),
+						storechildPath(), "store", fd, docfile, noclobber)
+					outb, _ := cmd.Output()
+					co := childOut{}
+					_ = json.Unmarshal([]byte(strings.TrimSpace(string(outb))), &co)
+					rep.OracleEvals++
+					rep.Count("io_error_injected:" + kp.syscall + ":" + co.Outcome)
+					if co.Outcome != "ok" && co.Outcome != "err" {
+						rep.Fail(Failure{What: "a store whose file-system call failed neither completed nor reported an error (panic or process exit)", Detail: fmt.Sprintf("%s failing with %s at %s: outcome %q %s", kp.syscall, errno, kp.line, co.Outcome, co.Error), Input: map[string]any{"overwrite": overwrite, "id": id, "failed_call": kp.line, "errno": errno}})
+					}
+					check(fmt.Sprintf("store with %s failing (%s) at %s", kp.syscall, errno, kp.line), fd, map[string]any{"failed_call": kp.line, "errno": errno})
+					if co.Outcome == "ok" {
+						if got, _ := classify(fd, id); got != "new" {
+							rep.Fail(Failure{What: "a store reported success although one of its file-system calls failed and the new document is not what Retrieve returns", Detail: fmt.Sprintf("%s (%s) at %s: retrieve gives %s", kp.syscall, errno, kp.line, got), Input: map[string]any{"overwrite": overwrite, "id": id, "failed_call": kp.line, "errno": errno}})
+						}
+					}
+					_ = os.RemoveAll(fd)
+				}
 			}
 			// the same with a long document, followed by a complete store of a short one under the same
 			// identifier: whatever the interrupted store left behind must not leak into the next entry
